@@ -23,6 +23,8 @@ EXTENDS XcpFS
 \*   "NoIdentityCheck"         files are created/truncated without the same-inode test        (repaired: fix 8a55880)
 \*   "SpecialNoIdentityCheck"  an existing node is removed without the same-inode test        (repaired: fix after 2nd review)
 \*   "ProbeFollowsLinks"       the no-clobber probe follows links (dangling link = absent)    (repaired: fix 5fd47a0)
+\*   "IdentityByPathOnly"      the same-inode test is made on the path before the open only; the path may become an
+\*                             alias of the source before File::create truncates it              (repaired: fix f36b0cd)
 CONSTANT Deviations
 
 SeqToSet(s) == { s[i] : i \in 1..Len(s) }
